@@ -238,7 +238,7 @@ class Sub:
         self.stateful = stateful
 
 
-CASE_CPU_LIMIT = 900  # seconds of CPU one case may burn before the run is declared broken (exit 2)
+CASE_CPU_LIMIT = int(os.environ.get("VF_CASE_CPU_LIMIT", "900"))  # seconds of CPU one case may burn before the run is declared broken (exit 2)
 
 
 @contextlib.contextmanager
@@ -280,6 +280,7 @@ class Recorder:
         self.violations = {}  # bucket -> list of (case, detail)
         self.t0 = time.time()
         self.stopped = False
+        self.stop_on = None
 
     def run_case(self, case, raise_bucket=None):
         """Evaluate one case.  In collect mode violations are recorded and the
@@ -319,6 +320,10 @@ class Recorder:
             lst = self.violations.setdefault(v.bucket, [])
             if len(lst) < self.MAX_PER_BUCKET:
                 lst.append((normalise(case), v.detail))
+            # development only (mutation runs, VF_FIRST=1): the shard ends at its first unlisted violation
+            if self.stop_on is not None and self.stop_on(v.bucket, case):
+                self.stopped = True
+                raise StopRun()
             return
         self.evaluations += 1
         for k, n in ctx.classes.items():
